@@ -477,7 +477,7 @@ struct MethodOps {
     int shape, inst;
     method_info* info;
     std::size_t* slots_strides;
-    void* body[MAXDEF];
+    void* body[MAXDEF_BIG] = {};
     std::size_t* static_slots = nullptr;
     std::size_t* static_strides = nullptr;
     int (*invoke)(CallCtx&, const std::uintptr_t* const* expect_vptr);
@@ -518,7 +518,7 @@ MethodOps make_ops() {
     o.inst = K;
     o.info = &M::fn;
     o.slots_strides = M::slots_strides;
-    fill_bodies<M>(o.body, std::make_integer_sequence<int, MAXDEF>());
+    fill_bodies<M>(o.body, std::make_integer_sequence<int, (K == 0 && (S == 0 || S == 6)) ? MAXDEF_BIG : MAXDEF>());
     o.invoke = &Inv::invoke;
     o.resolve = &Inv::resolve;
     if constexpr (y2::detail::has_static_offsets<M>::value) {
@@ -683,8 +683,8 @@ void fresh_class_info(CI&, long) {
 template<class P>
 struct Store {
     static inline class_info recs[MAXREC];
-    static inline definition_info defs[NSHAPES * NINST][MAXDEF];
-    static inline void* next_slot[NSHAPES * NINST][MAXDEF];
+    static inline definition_info defs[NSHAPES * NINST][MAXDEF_BIG];
+    static inline void* next_slot[NSHAPES * NINST][MAXDEF_BIG];
     static inline std::uintptr_t* vptr_slots[MAXC];
 };
 
@@ -695,7 +695,7 @@ struct World : IWorld {
     std::vector<MethodOps> ops;
     std::vector<std::vector<type_id>> base_store;
     std::vector<type_id> mvp_store[NSHAPES * NINST];
-    std::vector<type_id> dvp_store[NSHAPES * NINST][MAXDEF];
+    std::vector<type_id> dvp_store[NSHAPES * NINST][MAXDEF_BIG];
     std::vector<bool> rec_live;
     std::shared_ptr<Node> objs[MAXC][MAXALIAS];
     std::shared_ptr<NodeD> objsd[MAXC][MAXALIAS];
@@ -813,7 +813,7 @@ struct World : IWorld {
         P::methods.clear();
         P::classes.clear();
         for (int u = 0; u < NSHAPES * NINST; ++u)
-            for (int d = 0; d < MAXDEF; ++d)
+            for (int d = 0; d < MAXDEF_BIG; ++d)
                 Store<P>::defs[u][d].method = nullptr;
         rec_live.clear();
     }
@@ -1035,7 +1035,7 @@ struct World : IWorld {
         v.inst = o.inst;
         v.info = o.info;
         v.slots_strides = o.slots_strides;
-        for (int d = 0; d < MAXDEF; ++d)
+        for (int d = 0; d < MAXDEF_BIG; ++d)
             v.body[d] = o.body[d];
         return v;
     }
@@ -1106,7 +1106,7 @@ struct World : IWorld {
             P::methods.clear();
         else {
             op(r, m).info->specs.clear();
-            for (int d = 0; d < MAXDEF; ++d)
+            for (int d = 0; d < MAXDEF_BIG; ++d)
                 Store<P>::defs[uid(r, m)][d].method = nullptr;
         }
     }
@@ -1363,7 +1363,7 @@ struct World : IWorld {
             for (int i = 0; i < 2 * g_shapes[o.shape].arity - 1; ++i)
                 o.slots_strides[i] = 0;
         for (int u = 0; u < NSHAPES * NINST; ++u)
-            for (int d = 0; d < MAXDEF; ++d)
+            for (int d = 0; d < MAXDEF_BIG; ++d)
                 Store<P>::next_slot[u][d] = reinterpret_cast<void*>(0xdeadbeef);
     }
 
